@@ -1,10 +1,12 @@
 import BindgenModel.Driver.C03
+import BindgenModel.Driver.C09
 /-! `bgmodel`: one request per input line, one answer per output line. -/
 open BindgenModel
 
 def dispatch (line : String) : String :=
   match (line.trimAscii.toString.splitOn " ").filter (· ≠ "") with
   | "bf" :: rest => Driver.C03.handle rest
+  | "reach" :: rest => Driver.C09.handle rest
   | _ => "bad-op"
 
 partial def loop (h : IO.FS.Stream) (out : IO.FS.Stream) : IO Unit := do
